@@ -398,6 +398,21 @@ Example c14_nonvacuous_mac_strings :
     Some (zs "EXC_GUARD / GUARD_TYPE_FD / 0x0000000000000007 / 0x0000000000000001").
 Proof. vm_compute. repeat split. Qed.
 
+(* str::parse::<u32> exactly, and the general form of c14_status_pid: the FIRST line whose key - after removing blanks and
+   one pair of quotes - is "Pid" decides, whatever it looks like; its value parses iff it is an optional `+` and at least one
+   ASCII digit with value <= u32::MAX. *)
+Theorem c14_status_pid_first_line : forall pre line post v,
+  (forall l b, In l (pre ++ line :: post) -> In b l -> b <> 10) ->
+  (forall l k w, In l pre -> kv_of_line l = Some (k, w) -> zlist_eqb k KEY_PID = false) ->
+  kv_of_line line = Some (KEY_PID, v) ->
+  status_pid (join_lines (pre ++ line :: post)) = match parse_u32 v with Some n => n | None => 0 end /\
+  forall n, parse_u32 v = Some n <->
+    unsigned_body v <> [] /\ forallb is_digit (unsigned_body v) = true /\ dec_value (unsigned_body v) = n /\ n <= 4294967295.
+Proof.
+  intros pre line post v H1 H2 H3. split; [apply status_pid_first_line; assumption|intro n; apply parse_u32_spec].
+Qed.
+Print Assumptions c14_status_pid_first_line.
+
 Example c14_nonvacuous_round5 :
   crash_reason gen_lk OsWindows X86_64
     {| e_tid := 1; e_code := 3221226505; e_flags := 0; e_nparams := 1; e_info0 := 4294967296 + 7; e_info1 := 0; e_info2 := 0;
